@@ -14,27 +14,36 @@ CONFIG = {
                   "escape table regenerated from _cnq.rs is the canonical N-Quads rule for every character; (unsupported_iff) Unsupported is returned "
                   "exactly for rejected predicates / quoted triples / variables; (limits_only_fail) the non-standard safeguards only ever turn a result "
                   "into an error, never change one; (skip_rule_as_specified) the pruning test of the repaired smaller_path is the skip rule of 5.4.4.3/5.4.5.5 "
-                  "for all paths. Conformance beyond that fragment (4.7, 4.8: Hash Related / Hash N-Degree) is NOT a theorem (ImplEqSpec is open for the "
-                  "repaired code, refuted for the former length-first rule - both facts conditional on the flag regenerated from rdfc10.rs): the former "
+                  "for all paths; (flag_smaller_path_is_spec_rule, flag_predicate_must_be_iri) the two flags regenerated from rdfc10.rs have the repaired "
+                  "values - a regression flips a flag and fails these obligations. (fails_only_explicitly) normalize_with ends in a result, Unsupported or ToxicGraph(depth|permutations) - no unwrap can fail, "
+                  "the recursion is bounded by the number of blank nodes. That ToxicGraph arises only 'for a limit actually "
+                  "exceeded' is an ORACLE, not a theorem: o.st=ok is demanded whenever the transcription succeeds and the dataset is statically within "
+                  "the configured limits (no related list can exceed the permutation limit, the depth guard cannot trip at depth = #blank nodes). Conformance beyond that fragment (4.7, 4.8: Hash Related / Hash N-Degree) is NOT a theorem (ImplEqSpec is open for the "
+                  "repaired code; its refutation for the former length-first rule is kept as a non-audited guard lemma): the former "
                   "24-quad witness and its family now agree with the transcription (C06_witness_agrees, C06_family_agrees, native_decide) and the rest is "
                   "established differentially - implementation vs transcription on exhaustive "
                   "small datasets (<= 2 quads quick, <= 3 thorough, over 3 blank nodes / IRI / literal / 3 graph names), the symmetric families, the "
                   "shipped examples and random graphs.",
-    "level_note": "Trusted: my offline transcription of the Recommendation of 21 May 2024 (4.4.3, 4.5-4.8). Demanded LESS where unsure: canonical N-Quads "
+    "level_note": "Where the transcription itself is ambiguous (ties between non-automorphic blank nodes, see finding C05-rdfc10-ambiguous-tie; x.spec=ambiguous) "
+                  "no specification oracle is emitted. Trusted: my offline transcription of the Recommendation of 21 May 2024 (4.4.3, 4.5-4.8). Demanded LESS where unsure: canonical N-Quads "
                   "escaping is shared with the implementation model (only the table regenerated from _cnq.rs is used; XML-Char clause for U+FFFE/FFFF not "
-                  "demanded); step 2.1 is accepted in both readings (one reference per blank node of a quad - my reading - or one per occurrence - what the "
-                  "code does; they differ on quads mentioning one blank node twice, the driver reports which reading matched as x.reading); the id map is "
-                  "compared with the implementation model only, the specification being compared on the serialised dataset (the map is determined up to "
-                  "automorphism). Both former findings (smaller_path pruning on length alone; unwrap panic on a literal predicate) are repaired in /repo "
+                  "demanded); step 2.1: where the two readings (one reference per blank node of a quad - my reading - or one per occurrence - what the "
+                  "code does, text-pinned by the extractor as Gen.refsPerOccurrence) give different documents, i.e. on some datasets with a quad mentioning "
+                  "one blank node twice, NO specification oracle is emitted (implementation vs its model only; x.reading reports which reading the model "
+                  "follows; generator counter shape.self_ref_quad); the id map is not compared at all (determined only up to automorphism; the harness "
+                  "checks that it is a bijection onto c14n0..n-1 mapping the input onto the returned quads). Both former findings (smaller_path pruning on length alone; unwrap panic on a literal predicate) are repaired in /repo "
                   "(33fee4b, ae95823); the model follows the source through the regenerated flags Gen.smallerPathLengthFirst / Gen.predicateMustBeIri, so a "
                   "regression flips the flags, makes C06_witness/not_implEqSpec non-vacuous again and re-opens the differential failure on corpus/C06/witness.req.",
     "tables": ["cnq_escapes", "rdfc10_smaller_path"],
     "lean_targets": ["SophiaProofs.Props.C06", "SophiaProofs.Audit.C06"],
-    "theorems": ["impl_eq_spec_partial", "skip_rule_as_specified", "C06_witness_agrees", "C06_family_agrees", "escapes_as_specified", "unsupported_iff", "normalize_unsupported_iff", "limits_only_fail", "normalize_limits_only_fail", "C06_witness",
-                 "C06_witness_attributed", "not_implEqSpec"],
-    "native_ok": ["C06_witness", "C06_witness_attributed", "not_implEqSpec", "C06_witness_agrees", "C06_family_agrees"],
+    "theorems": ["impl_eq_spec_partial", "fails_only_explicitly", "flag_smaller_path_is_spec_rule", "flag_predicate_must_be_iri", "skip_rule_as_specified",
+                 "unsupported_iff", "unsupported_iff_now", "normalize_unsupported_iff", "limits_only_fail", "normalize_limits_only_fail",
+                 "escapes_as_specified", "C06_witness_agrees", "C06_family_agrees"],
+    "native_ok": ["C06_witness_agrees", "C06_family_agrees"],
     "trivial_re": r"^st=unsupported|^h=",
-    "rule": "corpus: the 24-quad former witness; multi-edge near-twin family under 5-7 enumeration orders; shipped examples (both hashes); smaller_path family (chain length 7-11 x copies x extras, relabelled); symmetric "
+    "rule": "corpus: the 24-quad former witness; multi-edge near-twin family under 5-7 enumeration orders; hubs with 3-6 pairwise distinguishable "
+            "same-hash siblings (distance-2 twists, twin / near-twin copies); >= 10 temporary ids (three variants of the witness family); >= 11 canonical "
+            "ids before an ambiguous near-twin pair; empty and blank-node-free datasets; literal graph name; shipped examples (both hashes); smaller_path family (chain length 7-11 x copies x extras, relabelled); symmetric "
             "families as C05; cross-group recursion; literals with every C0 control/DEL/quote/backslash/U+FFFE; unsupported and generalized input; "
             "limits grid; ALL datasets with <= 2 (thorough 3) quads over {3 blank nodes, IRI} x {3 blank nodes, IRI, literal} x {default, IRI, blank graph}; "
             "random graphs <= 6 blank nodes; non-trivial = not Unsupported",
